@@ -72,6 +72,21 @@ def gen_cases(rng, tier):
         force = rng.choice(FORCES) if st == "merge" else []
         cases.append({"fmt": "gtf", "strategy": st, "force": force,
                       "feats": [gen_gtf_feat(rng) for _ in range(rng.choice([2, 3, 4, 5, 6]))]})
+    # two batches: create_db, then FeatureDB.update on the reopened database with the same strategy
+    for i in range(nrand // 2):
+        st = STRATS[i % 5] if rng.random() < 0.5 else "merge"
+        force = rng.choice(FORCES) if st == "merge" and rng.random() < 0.5 else []
+        gtf = i % 4 == 3
+        feats = [(gen_gtf_feat(rng) if gtf else gen_feat(rng)) for _ in range(rng.choice([2, 3, 4, 5, 6]))]
+        c = {"strategy": st, "force": force, "feats": feats, "split": rng.randrange(1, len(feats))}
+        if gtf:
+            c["fmt"] = "gtf"
+        cases.append(c)
+    for n in (2, 3):
+        for seq in itertools.product(range(len(ALPHA)), repeat=n):
+            for st in ("merge", "create_unique", "replace"):
+                for k in range(1, n):
+                    cases.append({"strategy": st, "force": [], "feats": [ALPHA[i] for i in seq], "split": k})
     return cases
 
 
@@ -91,6 +106,8 @@ def gen_gtf_feat(rng):
 
 def valid_case(c):
     try:
+        if "split" in c and not (isinstance(c["split"], int) and 1 <= c["split"] < len(c["feats"])):
+            return False
         if not c["feats"] or c["strategy"] not in STRATS or any(f not in imp.FIELD for f in c["force"]):
             return False
         for f in c["feats"]:
@@ -112,6 +129,13 @@ def valid_case(c):
 
 def shrinks(c):
     feats = c["feats"]
+    if "split" in c:
+        k = c["split"]
+        for i in range(len(feats)):
+            nk = k - 1 if i < k else k
+            if 1 <= nk < len(feats) - 1:
+                yield dict(c, feats=feats[:i] + feats[i + 1:], split=nk)
+        return
     for i in range(len(feats)):
         yield dict(c, feats=feats[:i] + feats[i + 1:])
     if c["force"]:
@@ -125,7 +149,46 @@ def shrinks(c):
                 yield dict(c, feats=feats[:i] + [dict(f, attrs=f["attrs"][:j] + [[k, vs[:1]]] + f["attrs"][j + 1:])] + feats[i + 1:])
 
 
+def run_two(c):
+    import os, shutil, tempfile, warnings
+    import gffutils
+    from gffutils import constants
+    warnings.simplefilter("ignore")
+    gtf = c.get("fmt") == "gtf"
+    dialect = None
+    kw = dict(merge_strategy=c["strategy"], force_merge_fields=list(c["force"]) or None)
+    if gtf:
+        dialect = dict(constants.dialect)
+        dialect.update({"fmt": "gtf", "keyval separator": " ", "quoted GFF2 values": True, "field separator": "; ",
+                        "trailing semicolon": True})
+        kw.update(disable_infer_genes=True, disable_infer_transcripts=True)
+    d = tempfile.mkdtemp(prefix="c05", dir="/dev/shm" if os.path.isdir("/dev/shm") else None)
+    try:
+        k = c["split"]
+        objs = [imp.to_feature(x, dialect) for x in c["feats"]]
+        dbfn = os.path.join(d, "t.db")
+        try:
+            db = gffutils.create_db(objs[:k], dbfn, dialect=dialect, verbose=False, **kw)
+            db.conn.close()
+        except Exception as ex:
+            return {"tables": ["err", "Other"], "phase1": "err"}
+        try:
+            db = gffutils.FeatureDB(dbfn)
+            db.update(objs[k:], make_backup=False, verbose=False, **kw)
+        except Exception as ex:
+            return {"tables": ["err", L.err_class(ex)]}
+        t = imp.dump_tables(db.conn)
+        db.conn.close()
+        if not imp.tables_ok(t):
+            return {"tables": ["err", "Other"]}
+        return {"tables": ["ok", t]}
+    finally:
+        shutil.rmtree(d, ignore_errors=True)
+
+
 def run_impl(c):
+    if "split" in c:
+        return run_two(c)
     if c.get("fmt") == "gtf":
         st, db = imp.run_create(c["feats"], fmt="gtf", merge_strategy=c["strategy"], disable_infer_genes=True,
                                 disable_infer_transcripts=True, force_merge_fields=list(c["force"]) or None)
@@ -140,6 +203,11 @@ def run_impl(c):
 
 
 def coq_case(c, o):
+    if "split" in c:
+        k = c["split"]
+        return "Case2 %s %s %s %s %s %s" % (L.b(c.get("fmt") == "gtf"), imp.STRAT[c["strategy"]], L.lst([imp.FIELD[f] for f in c["force"]], "field"),
+                                            L.lst([imp.coq_row(f) for f in c["feats"][:k]], "row"),
+                                            L.lst([imp.coq_row(f) for f in c["feats"][k:]], "row"), imp.res_tables(o["tables"]))
     return "%s %s %s %s %s" % ("CaseGtf" if c.get("fmt") == "gtf" else "Case", imp.STRAT[c["strategy"]], L.lst([imp.FIELD[f] for f in c["force"]], "field"),
                                  L.lst([imp.coq_row(f) for f in c["feats"]], "row"), imp.res_tables(o["tables"]))
 
@@ -154,6 +222,7 @@ def _ids(c):
 def labels(c, o):
     yield "strategy=" + c["strategy"]
     yield "importer=" + c.get("fmt", "gff3")
+    yield "route=" + ("create_db+update" if "split" in c else "create_db")
     yield "force=" + ",".join(c["force"]) if c["force"] else "force=none"
     ids = [i for i in _ids(c) if i]
     yield "collisions=%d" % min(len(ids) - len(set(ids)), 4)
@@ -167,7 +236,7 @@ def nontrivial_key(c, o):
     if len(ids) == len(set(ids)):
         return None
     out = o["tables"][0] if o["tables"][0] != "ok" else (len(o["tables"][1]["rows"]), len(o["tables"][1]["dups"]))
-    return (c["strategy"], tuple(c["force"]), tuple(_ids(c)), out)
+    return (c["strategy"], tuple(c["force"]), tuple(_ids(c)), out, c.get("split"))
 
 
 def explain(c, o):
